@@ -1377,11 +1377,12 @@ C01_THEOREMS = ['Flac.C01.stereo_leftside_inverse', 'Flac.C01.stereo_sideright_i
                 'Flac.C01.rice_fold_neg', 'Flac.C01.rice_fold_pos', 'Flac.C01.fold_unfold']
 
 PROPS['C01'] = dict(
-    module='FlacModel.Props.C01b',
+    module='FlacModel.Props.C01c',
     theorems=C01_THEOREMS + ['Flac.C01.frame_roundtrip', 'Flac.C01.frame_roundtrip_checked', 'Flac.decodeFrame_serialize', 'Flac.frameWfB_sound',
                              'Flac.readHeaderFields_write', 'Flac.readSubframe_write', 'Flac.readResidual_write', 'Flac.crc8_self', 'Flac.crc16_self',
                              'Flac.C01.lpc_restores', 'Flac.C01.fixed_restores', 'Flac.C01.wasted_restores', 'Flac.C01.recorrelate_stereo',
-                             'Flac.C01.lossless_independent', 'Flac.C01.lossless_stereo'],
+                             'Flac.C01.lossless_independent', 'Flac.C01.lossless_stereo',
+                             'Flac.C01.declared_total_decodes_all', 'Flac.C01.stream_of_frames_lossless', 'Flac.C14.interrupted_decodes_complete_frames'],
     components=[EncFrame('roundtrip'), RoundTripFile()],
     rule='encframe: every length 1..48 (quick) / 1..96 (thorough) x 11 signal shapes x mono/stereo x 6 option sets, plus random '
          '(channels 1-8, depth in the subset codes, lengths around powers of two and block-size codes, all option dimensions); every frame the real '
@@ -1394,9 +1395,12 @@ PROPS['C01'] = dict(
           'from crc.rs) and returns exactly what the subframes expand to: every bit-level reader inverts its writer (readU/readS/unary/Rice/partition/residual/'
           'subframe/coded number/header). lpc_restores/fixed_restores/wasted_restores/recorrelate_stereo: what the encoder kernels (regenerated from encode.rs) '
           'compute for ANY quantised coefficients, shift and decorrelation mode expands back to the input channel(s); lossless_independent/lossless_stereo compose '
-          'them. frameWfB_sound: the executable test the driver runs on real encoder output implies the hypothesis. Plus the mechanism theorems '
+          'them. stream_of_frames_lossless / declared_total_decodes_all: the frame loop of the file readers (Decoder::read_frame driven to the end, with its total-sample accounting, '
+          'overshoot and short-block rules) over ANY sequence of well-formed frames whose block sizes add up to the declared total returns exactly the samples of every frame, in order, then a clean '
+          'end of stream, whatever follows the last frame (undeclared total: C14.interrupted_decodes_complete_frames with an empty cut). '
+          'frameWfB_sound: the executable test the driver runs on real encoder output implies the hypothesis. Plus the mechanism theorems '
           'stereo_*_inverse, wasted_inverse, predict_restore, layout_agree, rice_fold_*/fold_unfold.',
-    note='Whole FILES (metadata + frame sequence through the writer/reader front-ends and MD5) are composed by the correspondence run, not by one theorem; '
+    note='The metadata section in front of the frames, the reader front-ends above the frame loop (C07) and the MD5 are composed by the correspondence run, not into one file-level theorem; '
          'depth-32 stereo (the 33-bit side channel) is proved only at kernel level (C03 wide_*); the choice logic of the encoder (which candidate wins) is '
          'universally quantified, never modelled: that the real encoder emits a frame of the proved domain is checked per generated frame (frameWfB + re-serialization).',
     trusted_base=COMMON_TRUST,
